@@ -364,3 +364,158 @@ def check_memo_soundness(repo, chk, rule="M-sound"):
         chk.oblige(rule, "%s: lru_cache on a method of the value-keyed class %s (objects with equal particle names share one entry) - call sites: %d" % (f.key, f.cls.name, len(sites)), not sites)
         for g, c in sites[:3]:
             chk.violation(rule, g.key, "value-keyed:%s" % f.name, "calls %s, which is memoised with functools.lru_cache on a class that compares by particle names (%s.__eq__): the entry computed for the first object with these names is returned for every later one - another model of the same process, a spin scan that re-uses a resonance name - although the result depends on more than the names" % (f.key, eq_owner.name), file=g.mod.rel, line=c.lineno)
+
+
+# ---------------------------------------------------------------------------------------------------------------
+# P-state: state that a method keeps on the object from one call to the next, computed from that call's arguments
+PSTATE_BENIGN = {
+    ("HelicityDecay.set_ls", "total_ls"): "records the unrestricted coupling list the first time a restriction is applied; computed from the object, not from the argument",
+    ("ConfigLoader.get_params_error", "inv_he"): "opt-in (`using_cached=True`) re-use of the last inverse Hessian, requested by the caller",
+    ("SimpleData.load_cached_data", "cached_data"): "explicit file cache, loaded once per loader object by design",
+    ("MultiData.get_data", "_Ngroup"): "number of data groups recorded at the first load and asserted to stay the same",
+    ("MultiNpzData.get_data", "_Ngroup"): "number of data groups recorded at the first load and asserted to stay the same",
+    ("Frame.get_histogram", "nbins"): "plot layout default taken from the first histogram (presentation only)",
+    ("Frame.get_histogram", "x_range"): "plot layout default taken from the first histogram (presentation only)",
+    ("BaseModel.grad_hessp_batch", "hess_product_vector_i"): "buffer created once and re-filled from the argument on every call (decided by C07 rule C-fresh)",
+    ("ModelCachedAmp.grad_hessp_batch", "hess_product_vector_i"): "buffer created once and re-filled from the argument on every call (decided by C07 rule C-fresh)",
+    ("VarsManager.rename_var", "bnd_dic"): "moves the entry of the old name to the new name (the guard asks whether the old name has an entry)",
+}
+
+
+def _param_deps(fn):
+    """name -> set of parameters (other than self) it derives from; flow-insensitive, comprehension targets are local"""
+    params = [p for p in fn.all_param_names() if p not in ("self", "cls")]
+    dep = {p: {p} for p in params}
+    comp_locals = {x.id for c in ast.walk(fn.node) if isinstance(c, ast.comprehension) for x in ast.walk(c.target) if isinstance(x, ast.Name)}
+
+    def pd(expr):
+        out = set()
+        for x in ast.walk(expr):
+            if isinstance(x, ast.Name) and x.id in dep and x.id not in comp_locals:
+                out |= dep[x.id]
+            if isinstance(x, ast.comprehension):
+                out |= pd(x.iter)
+        return out
+
+    for _ in range(6):
+        for st in _walk_fn(fn.node):
+            if isinstance(st, ast.Assign):
+                tg, val = st.targets, st.value
+            elif isinstance(st, (ast.AugAssign, ast.AnnAssign)) and st.value is not None:
+                tg, val = [st.target], st.value
+            elif isinstance(st, ast.For):
+                tg, val = [st.target], st.iter
+            else:
+                continue
+            src = pd(val)
+            if src:
+                for t in tg:
+                    for x in ast.walk(t):
+                        if isinstance(x, ast.Name) and isinstance(x.ctx, ast.Store) and x.id not in comp_locals:
+                            dep.setdefault(x.id, set()).update(src)
+    return dep, pd
+
+
+def _walk_fn(fnode):
+    stack = list(fnode.body)
+    while stack:
+        n = stack.pop()
+        yield n
+        for c in ast.iter_child_nodes(n):
+            if not isinstance(c, (ast.FunctionDef, ast.AsyncFunctionDef, ast.Lambda, ast.ClassDef)):
+                stack.append(c)
+
+
+def check_persistent_state(repo, chk, prefixes, rule="P-state"):
+    """a method must not keep, on the object, a value computed from the arguments of one call and serve it to later
+    calls made with other arguments: (1) `if <self.A not set yet>: self.A = f(args)`; (2) `if k not in self.C:
+    self.C[k] = f(args)` where the key k does not depend on every argument the value depends on.  Confirmed benign
+    instances are frozen by (method, attribute) with a reason."""
+    from .model import AnalysisError, parent_map
+
+    chk.rule(rule, "no method memoises on the object a value computed from its call arguments under a guard that does not mention those arguments (guarded `self.A = f(args)`; `self.C[k] = f(args)` under `k not in self.C` with k not covering the arguments): a later call with other arguments (another sample, another mass, another batch size) would be served the first call's value; %d confirmed benign instances are frozen" % len(PSTATE_BENIGN))
+    seen_benign = set()
+    n_fn = 0
+    for rel, m in sorted(repo.mods.items()):
+        if "/tests/" in rel or not any(rel.startswith(p) for p in prefixes):
+            continue
+        for f in m.funcs.values():
+            if f.cls is None or f.name == "__init__":
+                continue
+            n_fn += 1
+            dep, pd = _param_deps(f)
+            alias = {}
+            for st in _walk_fn(f.node):
+                if isinstance(st, ast.Assign) and len(st.targets) == 1 and isinstance(st.targets[0], ast.Name) and isinstance(st.value, ast.Attribute) and isinstance(st.value.value, ast.Name) and st.value.value.id == "self":
+                    alias[st.targets[0].id] = st.value.attr
+            pm = parent_map(f.node)
+
+            def cont_attr(base):
+                if isinstance(base, ast.Attribute) and isinstance(base.value, ast.Name) and base.value.id == "self":
+                    return base.attr
+                if isinstance(base, ast.Name) and base.id in alias:
+                    return alias[base.id]
+                return None
+
+            hits = []
+            for n in _walk_fn(f.node):
+                # (1) guarded attribute initialisation
+                if isinstance(n, ast.If):
+                    attrs = set()
+                    for x in ast.walk(n.test):
+                        if isinstance(x, ast.Attribute) and isinstance(x.value, ast.Name) and x.value.id == "self":
+                            attrs.add(x.attr)
+                        if isinstance(x, ast.Call) and isinstance(x.func, ast.Name) and x.func.id == "hasattr" and len(x.args) == 2 and isinstance(x.args[1], ast.Constant):
+                            attrs.add(x.args[1].value)
+                        if isinstance(x, ast.Name) and x.id in alias:
+                            attrs.add(alias[x.id])
+                    test_params = pd(n.test)
+                    for st in [y for br in (n.body, n.orelse) for s_ in br for y in ast.walk(s_)]:
+                        if isinstance(st, ast.Assign):
+                            for tg in st.targets:
+                                if isinstance(tg, ast.Attribute) and isinstance(tg.value, ast.Name) and tg.value.id == "self" and tg.attr in attrs:
+                                    vp = pd(st.value)
+                                    if vp and not vp <= test_params:
+                                        hits.append((tg.attr, n, "`if %s: self.%s = %s`: the value depends on the argument(s) %s, the guard does not" % (norm_text(n.test)[:50], tg.attr, norm_text(st.value)[:50], sorted(vp - test_params))))
+                # (2) guarded keyed store
+                if isinstance(n, ast.Assign) and len(n.targets) == 1 and isinstance(n.targets[0], ast.Subscript):
+                    t = n.targets[0]
+                    attr = cont_attr(t.value)
+                    if attr is None:
+                        continue
+                    cur, guard, child = n, None, n
+                    while cur in pm and not isinstance(pm[cur], (ast.FunctionDef, ast.AsyncFunctionDef)):
+                        child, cur = cur, pm[cur]
+                        if isinstance(cur, ast.If):
+                            in_body = any(child is b_ for b_ in cur.body)
+                            # the guard must establish "no entry yet": `k not in C` (store in the body) / `k in C` (store in the else branch)
+                            want = ast.NotIn if in_body else ast.In
+                            neg = isinstance(cur.test, ast.UnaryOp) and isinstance(cur.test.op, ast.Not)
+                            if neg:
+                                want = ast.In if in_body else ast.NotIn
+                            if any(isinstance(c, ast.Compare) and isinstance(c.ops[0], want) and cont_attr(c.comparators[0]) == attr for c in ast.walk(cur.test)):
+                                guard = cur
+                                break
+                    if guard is None:
+                        continue
+                    vp, kp = pd(n.value), pd(t.slice)  # the KEY must carry the arguments; a guard that mentions them does not key the entry
+                    if vp and not vp <= kp:
+                        hits.append((attr, n, "`self.%s[%s] = %s` under `%s`: the value depends on the argument(s) %s, the key does not" % (attr, norm_text(t.slice)[:30], norm_text(n.value)[:50], norm_text(guard.test)[:40], sorted(vp - kp))))
+            short = "%s.%s" % (f.cls.name, f.name)
+            done = set()
+            for attr, node, msg in hits:
+                if (attr, node.lineno) in done:
+                    continue
+                done.add((attr, node.lineno))
+                if (short, attr) in PSTATE_BENIGN:
+                    seen_benign.add((short, attr))
+                    chk.instance(rule, "%s: %s - frozen as benign: %s" % (f.key, msg, PSTATE_BENIGN[(short, attr)]), nontrivial=False)
+                    continue
+                chk.instance(rule, "%s: %s" % (f.key, msg))
+                chk.violation(rule, f.key, "memo:%s" % attr, "%s - from the second call on the method serves the value of the first call whatever it is given" % msg, file=rel, line=node.lineno)
+    chk.instance(rule, "%d methods under %s analysed for call-persistent state; benign instances met: %d" % (n_fn, ", ".join(prefixes), len(seen_benign)))
+    if n_fn < 5:
+        raise AnalysisError("%s: only %d methods analysed under %s" % (rule, n_fn, prefixes))
+    # positive example
+    t = ast.parse("class K:\n    def f(self, mc):\n        if self._i is None:\n            self._i = g(mc)\n        return self._i\n    def h(self, name, m):\n        ms = self._all\n        if name not in ms:\n            ms[name] = conv(m)\n        return ms\n    def ok(self, data):\n        k = id(data)\n        if k not in self.c:\n            self.c[k] = build(data)\n        return self.c[k]\n")
+    chk.instance(rule, "fixture parsed (%d methods); the rule is exercised by the self-test mutants" % len(t.body[0].body), nontrivial=False)
